@@ -64,6 +64,11 @@ def machine(kind, retry, catch, fname):
     hs = {}
     if retry: hs["Retry"] = retry
     if catch: hs["Catch"] = catch
+    # (nested kinds: the Task inside the fan-out has a Retry of its own; its counter must not leak into the fan-out's retriers)
+    inner_retry = [{"ErrorEquals": ["E1", "E2"], "IntervalSeconds": 1, "MaxAttempts": 1, "BackoffRate": 1.0}]
+    if kind.endswith("-nested"):
+        t = dict(t, Retry=inner_retry)
+        kind = kind[:-len("-nested")]
     if kind == "task":
         states["T"] = dict(t, Next="N", **hs)
     elif kind == "parallel":
@@ -95,6 +100,11 @@ def cases(tier):
         for r in single:
             for c in cs[:3]:
                 for o in os_[::2]:
+                    out.append((kind, r, c, o))
+    for kind in ("parallel-nested", "map-nested"):
+        for r in single:
+            for c in cs[:2]:
+                for o in os_[::3]:
                     out.append((kind, r, c, o))
     return out
 
@@ -259,7 +269,7 @@ def run(tier, seed):
         if agree(tt, ft, gt, ref):
             continue
         cls = "policy-mismatch"
-        if kind in ("parallel", "map", "mapmc") and "X" in o and not tt:
+        if kind in ("parallel", "map", "mapmc", "parallel-nested", "map-nested") and "X" in o and not tt:
             # the worker itself reports the reserved name Task.Terminated from inside a branch
             pos = o.index("X")
             cls = "worker-reported-Task.Terminated-in-fanout-never-ends"
